@@ -537,6 +537,31 @@ async fn run_pause_chain(a: &Args, m: &mut mon::Mon) {
         let fa = world::clone_kp(&w.fee_admin);
         let u = w.add_user(0).await;
         let stranger = w.user_kp(u);
+        // a small market whose users feel the pause: a depositor who also owes a little
+        let (mc, md) = (w.add_mint(6, world::TokKind::Classic).await, w.add_mint(6, world::TokKind::Classic).await);
+        let now = w.chain.now();
+        let ca = w.add_bank_pyth(g, mc, world::default_bank_cfg(), world::PythPx::simple(1_000_000, -6, now)).await.expect("bank");
+        let db = w.add_bank_pyth(g, md, world::default_bank_cfg(), world::PythPx::simple(1_000_000, -6, now)).await.expect("bank");
+        w.create_ata(w.fee_wallet.pubkey(), mc).await;
+        w.create_ata(w.fee_wallet.pubkey(), md).await;
+        let uu = w.add_user(1 << 40).await;
+        let acct = w.add_account(g, uu).await;
+        let auth = w.auth_of(acct);
+        {
+            let i = w.ix_deposit(acct, ca, auth.pubkey(), w.ta_of(acct, ca), 1u64 << 34, None);
+            let o = w.exec(m, &[i], &[&auth]).await;
+            assert!(o.ok(), "pause-chain market: deposit failed: {}", o.err_string());
+            // somebody else lends what the user borrows
+            let uu2 = w.add_user(1 << 40).await;
+            let acct2 = w.add_account(g, uu2).await;
+            let auth2 = w.auth_of(acct2);
+            let i = w.ix_deposit(acct2, db, auth2.pubkey(), w.ta_of(acct2, db), 1 << 34, None);
+            let o = w.exec(m, &[i], &[&auth2]).await;
+            assert!(o.ok(), "pause-chain market: lender's deposit failed: {}", o.err_string());
+        }
+        let i = w.ix_borrow(acct, db, auth.pubkey(), w.ta_of(acct, db), 1 << 20);
+        let o = w.exec(m, &[i], &[&auth]).await;
+        assert!(o.ok(), "pause-chain market: borrow failed: {}", o.err_string());
         let steps = if a.tier == "thorough" { 4000 } else { 600 };
         for _ in 0..steps {
             if t0.elapsed() >= a.budget {
@@ -560,6 +585,22 @@ async fn run_pause_chain(a: &Args, m: &mut mon::Mon) {
                 }
                 _ => {
                     let _ = w.exec(m, &[ix::propagate_fee(gk)], &[]).await;
+                }
+            }
+            // the users of the market: every gated instruction, simulated (a refusal as "paused"
+            // is judged against the pause the group's own cache records)
+            if r.gen_bool(0.5) {
+                w.refresh_oracles();
+                let ak = auth.pubkey();
+                let ixs = [
+                    w.ix_deposit(acct, ca, ak, w.ta_of(acct, ca), 1000, None),
+                    w.ix_withdraw(acct, ca, ak, w.ta_of(acct, ca), 1000, None),
+                    w.ix_borrow(acct, db, ak, w.ta_of(acct, db), 1000),
+                    w.ix_repay(acct, db, ak, w.ta_of(acct, db), 1000, None),
+                ];
+                for i in ixs {
+                    let o = w.probe(m, &[i], &[&auth]).await;
+                    m.r.count(if o.ok() { "C15.chain_user_probes_accepted" } else { "C15.chain_user_probes_refused" });
                 }
             }
         }
